@@ -28,6 +28,17 @@ CLAUSES = [
          "nodes/prod/web1.yml": cls("web1", ["other", ".app"])}, compose_node_name=True),
     inv({"classes/app.yml": cls("app"), "nodes/prod/eu/web1.yml": cls("web1", [".app", "..app", "...app"])}, compose_node_name=True),
     inv({"classes/app.yml": cls("app"), "nodes/_hid/web1.yml": cls("web1", [".app"]), "nodes/g/web2.yml": cls("web2", [".app"])}, compose_node_name=False),
+    # an include written as a REFERENCE whose value is a relative name: anchored at the class that contains the entry
+    # (with and without a class of the same name nearer the root), and from a node at the root
+    inv({"classes/defaults.yml": cls("defaults", flavour=".variant", up="..top", deep=".sub2.leaf"), "classes/sub/main.yml": cls("sub.main", ["${flavour}", "${up}", "${deep}"]),
+         "classes/sub/variant.yml": cls("sub.variant"), "classes/variant.yml": cls("variant"), "classes/top.yml": cls("top"), "classes/sub/top.yml": cls("sub.top"),
+         "classes/sub/sub2/leaf.yml": cls("sub.sub2.leaf"), "classes/sub2/leaf.yml": cls("sub2.leaf"),
+         "nodes/n1.yml": cls("n1", ["defaults", "sub.main"]), "nodes/n2.yml": cls("n2", ["defaults", "${flavour}", "sub.main"])}),
+    inv({"classes/defaults.yml": cls("defaults", flavour=".variant"), "classes/sub/main.yml": cls("sub.main", ["${flavour}"]),
+         "classes/sub/variant.yml": cls("sub.variant"), "nodes/n1.yml": cls("n1", ["defaults", "sub.main"])}),
+    inv({"classes/defaults.yml": cls("defaults", flavour="..variant"), "classes/a/b/main.yml": cls("a.b.main", ["${flavour}", "x${flavour}"]),
+         "classes/a/variant.yml": cls("a.variant"), "classes/a/b/variant.yml": cls("a.b.variant"), "classes/x/variant.yml": cls("x.variant"),
+         "classes/x..variant.yml": cls("odd"), "nodes/n1.yml": cls("n1", ["defaults", "a.b.main"])}),
     # relative name with a further dotted suffix
     inv({"classes/d1/a.yml": cls("d1.a", [".e.f"]), "classes/d1/e/f.yml": cls("d1.e.f"), "nodes/n.yml": cls("n", ["d1.a"])}),
 ]
@@ -75,6 +86,13 @@ class C15(InvProp):
                 cd["fam"] = "dotted_dirs"
                 yield cd
                 yield make_twin(cd)
+            if i % 5 == 2:
+                # includes written as references whose values are relative names, used from classes in several directories
+                r5 = Rng(seed, "C15:relref", i)
+                cr = GI.gen_inventory(r5, n_classes=r5.range(1, 3), shape="tree", n_nodes=1)
+                GI2.relref_groups(r5, cr, n_nodes=(2, 5))
+                cr["fam"] = "relref_groups"
+                yield cr
             if i % 3 == 0:
                 # the same class file under two names in different directories (symlink): its relative includes
                 # resolve against the directory of the name it was included by
@@ -117,7 +135,7 @@ class C15(InvProp):
     def nontrivial(self, req, impl, reply):
         if req.get("op") == "abs":
             return req["cls"].startswith(".")
-        return any(x.startswith(".") for f in req["files"] for x in f.get("content", {}).get("classes", []))
+        return any(isinstance(x, str) and (x.startswith(".") or "${" in x) for f in req["files"] for x in f.get("content", {}).get("classes", []))
 
     def tags(self, req, impl, reply):
         if req.get("op") == "abs":
